@@ -49,7 +49,7 @@ MC_WITNESS = {
 def sched_constants(kind, tier, depth, outdir, tp=BIG_TP, genesis=False):
     return dict(KIND=kind, TP=tp, MaxH=3 * depth, MaxT=6 * depth, MaxSeq=3 if tier == "quick" else 4,
                 DATA={"ok", "fail", "async", "ok2", "fail2", "fail3", "async1", "ok1"}, SENDERS={"A", "B"}, DTS={1, 2}, FREEZE=True,
-                TOH_OFFS={3, 6, 12}, TOT_OFFS={4, 9, 20}, TOS_OFFS={2, 4, 9},
+                TOH_OFFS={3, 6, 12}, TOT_OFFS={4, 9, 20} if tp > 1000 else {4, 9, 20, 90}, TOS_OFFS={2, 4, 9} if tp > 1000 else {2, 4, 9, 45},
                 Depth=depth, OutDir=outdir, HONEST_PCT=60, MACRO_PCT=50, EDGE_PCT=20, GENESIS=genesis)
 
 
@@ -70,7 +70,7 @@ def run_mc(tier, result, errors):
         def one(kind):
             cfg = os.path.join(d, "MC_%s.cfg" % kind)
             vk.write_cfg(cfg, "Spec", mc_constants(kind, tier), invariants=["Inv"], properties=MC_PROPS, constraint="Bound")
-            r = vk.tlc_mc(d, "MC_Packet", cfg, workers=5, timeout=1200 if tier == "quick" else 3600)
+            r = vk.tlc_mc(d, "MC_Packet", cfg, workers=5, timeout=5400)
             seen = set(re.findall(r'<<"WITNESS", "([A-Za-z0-9]+)">>', r["out"]))
             missing = [w for w in MC_WITNESS[kind] if w not in seen]
             if missing:
